@@ -57,6 +57,8 @@ def run(ctx):
             spec = {"cls": "ARTMAP", "module_a": aspec, "module_b": bspec}
         else:
             y = gen.labels(r, n, kcls)
+            if r.random() < 0.35:
+                y = y - r.choice([1, 2])          # class labels need not be 0..k-1: e.g. the {-1, +1} coding
             spec = {"cls": "SimpleARTMAP", "module_a": aspec}
         desc = {"spec": spec, "X": X.tolist(), "y": y.tolist(), "mode": mode, "eps": eps}
         try:
@@ -81,7 +83,7 @@ def run(ctx):
                     if use_artmap:
                         est.fit(X[::-1].copy(), y[::-1].copy(), **kw_pre(mode, eps))
                     else:
-                        est.fit(X, (np.asarray(y) + 1 + r.randrange(3)) % (kcls + 2), **kw_pre(mode, eps))
+                        est.fit(X, (np.asarray(y) - np.asarray(y).min() + 1 + r.randrange(3)) % (kcls + 2), **kw_pre(mode, eps))
             except Exception as e:
                 ctx.issue("violation", f"{spec['cls']}({acls}).fit:{exc_enum(e)}", f"first fit raised {e!r}", desc)
                 continue
